@@ -9,5 +9,6 @@ INVARIANTS
   C04_LenAgrees
   C04_LenAgreesDec
   C04_ShapeRoundTrip
+  C04_NextHopLen
   C04_Fixpoint
   C04_Equal
